@@ -29,6 +29,77 @@ func (r *Run) litSentOn(scope *prog.FuncScope, ch *types.Var) bool {
 	return false
 }
 
+// litRunsOn reports whether the literal of scope runs only as (part of) a task sent on ch: it is
+// the value of a send on ch, or it is bound to a local function variable whose every use is a
+// call inside such a literal (handle := func() error {...}; o.events <- func() { resp <- handle() }).
+func (r *Run) litRunsOn(scope *prog.FuncScope, ch *types.Var, depth int) bool {
+	if scope == nil || scope.Lit == nil || depth > 3 {
+		return false
+	}
+	if r.litSentOn(scope, ch) {
+		return true
+	}
+	f := r.P.FileAt(scope.Lit.Pos())
+	info := r.P.InfoAt(scope.Lit.Pos())
+	path := r.P.PathTo(f, scope.Lit.Pos(), scope.Lit.End())
+	var v types.Object
+	for i := len(path) - 1; i > 0; i-- {
+		if path[i] != ast.Node(scope.Lit) {
+			continue
+		}
+		switch p := path[i-1].(type) {
+		case *ast.AssignStmt:
+			for k, rh := range p.Rhs {
+				if rh == ast.Expr(scope.Lit) && k < len(p.Lhs) && len(p.Lhs) == len(p.Rhs) {
+					v = prog.IdentObj(info, p.Lhs[k])
+				}
+			}
+		case *ast.ValueSpec:
+			for k, rh := range p.Values {
+				if rh == ast.Expr(scope.Lit) && k < len(p.Names) {
+					v = info.Defs[p.Names[k]]
+				}
+			}
+		}
+		break
+	}
+	lv, ok := v.(*types.Var)
+	if !ok || lv.IsField() || lv.Parent() == nil || lv.Parent() == lv.Pkg().Scope() {
+		return false
+	}
+	n := 0
+	okAll := true
+	for _, u := range r.P.Uses(v) {
+		up := r.P.PathTo(r.P.FileAt(u.Ident.Pos()), u.Ident.Pos(), u.Ident.End())
+		if len(up) < 2 {
+			okAll = false
+			continue
+		}
+		// the left-hand side of one of its own assignments
+		if as, isAs := up[len(up)-2].(*ast.AssignStmt); isAs {
+			isLHS := false
+			for _, l := range as.Lhs {
+				if l == ast.Expr(u.Ident) {
+					isLHS = true
+				}
+			}
+			if isLHS {
+				continue
+			}
+		}
+		call, isCall := up[len(up)-2].(*ast.CallExpr)
+		if !isCall || ast.Unparen(call.Fun) != ast.Expr(u.Ident) {
+			okAll = false
+			continue
+		}
+		n++
+		if !r.litRunsOn(r.P.ScopeAt(u.Ident.Pos()), ch, depth+1) {
+			okAll = false
+		}
+	}
+	return okAll && n > 0
+}
+
 // confined (T16): every use of each function in targets lies in one of the allowed
 // enclosing functions, in another target, or in a literal sent on the loop's task channel.
 func (r *Run) confined(targets []*types.Func, withIfaces bool, taskChan *types.Var, allowed map[string]string) {
@@ -44,7 +115,7 @@ func (r *Run) confined(targets []*types.Func, withIfaces bool, taskChan *types.V
 			}
 			where := r.scopeName(cs.Use.Scope)
 			r.Site(cs.Use.Ident.Pos(), name+" used in "+where)
-			if taskChan != nil && r.litSentOn(cs.Use.Scope, taskChan) {
+			if taskChan != nil && r.litRunsOn(cs.Use.Scope, taskChan, 0) {
 				continue
 			}
 			if cs.Use.Scope != nil && cs.Use.Scope.Lit == nil || cs.Use.Scope != nil && !r.litEscapes(cs.Use.Scope) {
@@ -126,18 +197,28 @@ func init() {
 					if r.P.CalleeFunc(info, call) == align {
 						waitVar = prog.IdentObj(info, as.Lhs[0])
 					}
-					// an immediately invoked closure (e.g. one that takes the read lock with a deferred
-					// unlock) whose every return is alignSender's result
+					// an immediately invoked closure, or a new helper (e.g. one that takes the read lock with
+					// a deferred unlock), whose every return is alignSender's result
+					var body *ast.BlockStmt
 					if lit, ok := ast.Unparen(call.Fun).(*ast.FuncLit); ok {
+						body = lit.Body
+					} else if hf := r.P.FuncInfoOf(r.P.CalleeFunc(info, call)); isNewHelper(r.P, hf) {
+						body = hf.Decl.Body
+					}
+					if body != nil {
 						nRet, all := 0, true
-						ast.Inspect(lit.Body, func(m ast.Node) bool {
-							if inner, ok := m.(*ast.FuncLit); ok && inner != lit {
+						ast.Inspect(body, func(m ast.Node) bool {
+							if _, ok := m.(*ast.FuncLit); ok {
 								return false
 							}
 							if ret, ok := m.(*ast.ReturnStmt); ok {
 								nRet++
+								if len(ret.Results) != 1 {
+									all = false
+									return true
+								}
 								c2, ok := ast.Unparen(ret.Results[0]).(*ast.CallExpr)
-								if len(ret.Results) != 1 || !ok || r.P.CalleeFunc(info, c2) != align {
+								if !ok || r.P.CalleeFunc(info, c2) != align {
 									all = false
 								}
 							}
@@ -164,8 +245,8 @@ func init() {
 				return ev.Kind == pathsim.EvSend && prog.SelField(c.Info, ev.Chan) == events
 			}
 			n := r.mustPrecede(f.Decl, f.Name(), "alignSender()()", "o.events<-", isWaitCall, isSend)
-			if n < 4 {
-				r.Error("HandleEvent: expected >= 4 sends on o.events (one per event kind), found %d", n)
+			if n < 1 {
+				r.Error("HandleEvent: expected sends on o.events, found %d", n)
 			}
 			// the argument of alignSender is the senderID parameter of HandleEvent
 			inspect(f.Decl.Body, func(nd ast.Node) bool {
@@ -252,7 +333,7 @@ func init() {
 					c.Violate(ev.Pos, "[result-shape] alignSender must return exactly one function literal per path")
 					return nil
 				}
-				lit, ok := ast.Unparen(ev.Results[0]).(*ast.FuncLit)
+				lit, ok := ast.Unparen(deref(info, ev.Results[0])).(*ast.FuncLit)
 				if !ok {
 					c.Violate(ev.Pos, "[result-shape] alignSender returns something other than a function literal; the blocking behaviour cannot be decided")
 					return nil
